@@ -31,6 +31,9 @@ Open Scope N_scope.
 (* ASCII literal -> bytes *)
 Definition sx (s : string) : bytes := map N_of_ascii (list_ascii_of_string s).
 
+(* long byte strings in case files come in pieces: one string literal of 100 kB is too deep a term *)
+Definition hxs (l : list string) : bytes := concat (map hx l).
+
 (* ---- error classes (errors.Is against the package's sentinels) ------------------ *)
 Inductive err := EManifest | EVersion | EObject | ECorrupt | ENotFound | EExists | EIncomplete | EOther.
 Inductive res (A : Type) := Ok (a : A) | Err (e : err).
